@@ -1,8 +1,8 @@
 """Rule registry."""
 from . import (calendar_mode, normalise, eqhash, recurrence, ownership,
-               typestate, zone, tablerules, signtables, errors, cli)
+               typestate, zone, tablerules, signtables, errors, cli, scale)
 
 ALL_RULES = {}
 for _mod in (calendar_mode, normalise, eqhash, recurrence, ownership,
-             typestate, zone, tablerules, signtables, errors, cli):
+             typestate, zone, tablerules, signtables, errors, cli, scale):
     ALL_RULES.update(_mod.RULES)
